@@ -59,6 +59,10 @@ Prop_C05(c, r) ==
 Bind_Impl(c, r) ==
   LET e == ImplRun(c) IN
   /\ e.exit = r.exit /\ e.written = r.written /\ e.json = r.json /\ e.shown = r.shown /\ e.why = r.why
+  \* extra observables: the hidden-problems message of lint and the texts of the rule/owner problems
+  /\ (c.cmd = "lint" /\ e.written) => r.hidden = e.hidden
+  /\ (c.cmd = "ci") => r.hidden = 0
+  /\ e.written => r.ownerProblems = OwnerProblems(c)
   /\ (c.cmd = "lint" /\ e.why = "found problems") =>
         LET failP == ParseSeverity(FlagValue(c.failOn, "bug")) IN
         /\ r.failSev = SevString(failP.sev)
@@ -81,7 +85,7 @@ TRun ==
         ELSE PrintT(<<"DRIFT", Rec.id, ToJson([case |-> c, expected |-> ImplRun(c),
                        observed |-> [exit |-> Rec.exit, written |-> Rec.written, json |-> Rec.json,
                                      shown |-> Rec.shown, why |-> Rec.why, failCount |-> Rec.failCount,
-                                     failSev |-> Rec.failSev]])>>)
+                                     failSev |-> Rec.failSev, hidden |-> Rec.hidden, ownerProblems |-> Rec.ownerProblems]])>>)
   /\ l' = l + 1 /\ UNCHANGED <<vars, done>>
 
 TDone ==
